@@ -46,6 +46,10 @@ func verifBalOf(addr string, denom string) math.Int {
 
 var vPoolNames = []string{"pool-a", "pool-b", "pool-c"}
 
+// latest lock end a harness explores (seconds). C06 widens it beyond 2262-04-11, where Time.UnixNano no longer fits in an int64
+// (pool durations of up to ~292 years are accepted by MsgCreateVestingPool).
+var vLockEndMax int64 = vVT1
+
 // verifPool: arbitrary pool i (amounts in [0,1e30], any lock end); solvency comes from Validate, assumed by the caller.
 func verifPool(i int, vestingType string) *types.VestingPool {
 	id := string(rune('1' + i))
@@ -53,7 +57,7 @@ func verifPool(i int, vestingType string) *types.VestingPool {
 		Name:            vPoolNames[i],
 		VestingType:     vestingType,
 		LockStart:       verif_time_range("lockStart"+id, vVT0, vVT1),
-		LockEnd:         verif_time_range("lockEnd"+id, vVT0, vVT1),
+		LockEnd:         verif_time_range("lockEnd"+id, vVT0, vLockEndMax),
 		InitiallyLocked: verif_int_range("IL"+id, "0", vMaxAmt),
 		Withdrawn:       verif_int_range("W"+id, "0", vMaxAmt),
 		Sent:            verif_int_range("S"+id, "0", vMaxAmt),
